@@ -47,6 +47,10 @@ def diff(a, b, path="$"):
                 return d
         return None
     if isinstance(a, list):
+        # an undocumented exception is a crash on both sides whatever its class: outside the domain
+        # of accepted schemas the model does not try to predict which Python exception it is
+        if a and b and a[0] == "crash" and b[0] == "crash":
+            return None
         if len(a) != len(b):
             return "%s: len %d vs %d: %r vs %r" % (path, len(a), len(b), a, b)
         for i, (x, y) in enumerate(zip(a, b)):
